@@ -265,8 +265,6 @@ fn run<const NT: usize>(scripts: [Script; NT], explicit_resume: bool) {
         assert_eq!(SIGCONT_TO_PID, 1, "the process is continued exactly once");
         assert_eq!(OTHER_KILLS, 0);
     }
-    kani::cover!(expect == NT, "all threads retained");
-    kani::cover!(expect < NT || NT == 0, "a thread was dropped");
     kani::cover!(true, "end reached");
     core::mem::forget(errs);
 }
